@@ -9,6 +9,21 @@ import (
 	"go.mongodb.org/mongo-driver/bson"
 )
 
+// matchNone is a filter no document satisfies, matchAll one every document
+// satisfies: a condition that is malformed never matches
+var matchNone = bson.M{"_id": bson.M{"$exists": false}}
+var matchAll = bson.M{"_id": bson.M{"$exists": true}}
+
+// rangeLimits returns the two bounds of an inside/outside/between condition
+func rangeLimits(cond *gripql.HasCondition) ([]interface{}, bool) {
+	lims, ok := cond.Value.AsInterface().([]interface{})
+	if !ok || len(lims) != 2 {
+		log.Errorf("expected a list of two bounds for the %s condition", cond.Condition)
+		return nil, false
+	}
+	return lims, true
+}
+
 func convertHasExpression(stmt *gripql.HasExpression, not bool) bson.M {
 	output := bson.M{}
 	switch stmt.Expression.(type) {
@@ -16,28 +31,34 @@ func convertHasExpression(stmt *gripql.HasExpression, not bool) bson.M {
 		cond := stmt.GetCondition()
 		switch cond.Condition {
 		case gripql.Condition_INSIDE:
-			val := cond.Value.AsInterface()
-			lims, ok := val.([]interface{})
+			lims, ok := rangeLimits(cond)
 			if !ok {
-				log.Error("unable to cast values from INSIDE statement")
+				output = matchNone
+				if not {
+					output = matchAll
+				}
 			} else {
 				output = convertHasExpression(gripql.And(gripql.Gt(cond.Key, lims[0]), gripql.Lt(cond.Key, lims[1])), not)
 			}
 
 		case gripql.Condition_OUTSIDE:
-			val := cond.Value.AsInterface()
-			lims, ok := val.([]interface{})
+			lims, ok := rangeLimits(cond)
 			if !ok {
-				log.Error("unable to cast values from OUTSIDE statement")
+				output = matchNone
+				if not {
+					output = matchAll
+				}
 			} else {
 				output = convertHasExpression(gripql.Or(gripql.Lt(cond.Key, lims[0]), gripql.Gt(cond.Key, lims[1])), not)
 			}
 
 		case gripql.Condition_BETWEEN:
-			val := cond.Value.AsInterface()
-			lims, ok := val.([]interface{})
+			lims, ok := rangeLimits(cond)
 			if !ok {
-				log.Error("unable to cast values from BETWEEN statement")
+				output = matchNone
+				if not {
+					output = matchAll
+				}
 			} else {
 				output = convertHasExpression(gripql.And(gripql.Gte(cond.Key, lims[0]), gripql.Lt(cond.Key, lims[1])), not)
 			}
@@ -69,7 +90,7 @@ func convertHasExpression(stmt *gripql.HasExpression, not bool) bson.M {
 		}
 
 	case *gripql.HasExpression_Not:
-		notRes := convertHasExpression(stmt.GetNot(), true)
+		notRes := convertHasExpression(stmt.GetNot(), !not)
 		output = notRes
 
 	default:
@@ -112,7 +133,8 @@ func convertCondition(cond *gripql.HasCondition, not bool) bson.M {
 	case gripql.Condition_WITHOUT:
 		expr = bson.M{"$not": bson.M{"$in": val}}
 	case gripql.Condition_CONTAINS:
-		expr = bson.M{"$in": []interface{}{val}}
+		//only a list contains a value, a scalar that equals it does not
+		expr = bson.M{"$in": []interface{}{val}, "$type": "array"}
 	default:
 		log.Error("unknown where condition type")
 	}
